@@ -53,6 +53,7 @@ type Hay struct {
 	AtL  [][]int `json:"atl"`
 	Anc  [][]int `json:"anc"`  // leftmost-first match starting exactly at each symbol position
 	Ends [][]int `json:"ends"` // all match ends per start position
+	OPS  []int   `json:"ops"`  // MC_OnePass: result of the model's one-pass search (empty = none)
 	// replace / split records
 	Rep   []RepOut  `json:"rep,omitempty"`
 	Split []SplitIO `json:"split,omitempty"`
@@ -81,6 +82,7 @@ type Record struct {
 	NC    int      `json:"nc"`
 	Names [][]int  `json:"names"`
 	Hs    []Hay    `json:"hs"`
+	OP    *bool    `json:"op,omitempty"` // MC_OnePass: the model's verdict "one-pass"
 	Raw   json.RawMessage
 	ReRaw json.RawMessage `json:"-"`
 }
